@@ -194,10 +194,15 @@ def table(ctx: Ctx, rule="R-C20-TABLE") -> None:
     f = ctx.func(f"{PROTO}.handle_request")
     g = ctx.cfg(f)
     stores = [s for s in g.nodes if s.kind == "store" and s.target == "content"]
-    ctx.floor(rule, len(stores), 2, "stores of the response content")
+    ctx.floor(rule, len(stores), 1, "stores of the response content")
 
-    def kind(s):
+    def kind(s, e):
         v = s.meta.get("value")
+        while isinstance(v, ast.IfExp):  # content = <status> if <is health check> else "404 ..."
+            tv = flow.eval_cond(v.test, e, f)
+            if tv is None:
+                return "undecided:" + unparse(v.test)[:40]
+            v = v.body if tv else v.orelse
         if isinstance(v, ast.JoinedStr) and _mentions(v, "status"):
             parts = [unparse(x.value) for x in v.values if isinstance(x, ast.FormattedValue)]
             return "status" if parts == ["self.status.value", "self.status.name"] else "status?" + str(parts)
@@ -209,7 +214,7 @@ def table(ctx: Ctx, rule="R-C20-TABLE") -> None:
         def fn(text, node):
             if isinstance(node, ast.Compare) and isinstance(node.ops[0], ast.Eq):
                 l, r = node.left, node.comparators[0]
-                if isinstance(l, ast.Name) and l.id == "method" and C.is_const(r, "GET"):
+                if {dotted(l) or (l.value if isinstance(l, ast.Constant) else None), dotted(r) or (r.value if isinstance(r, ast.Constant) else None)} == {"method", "GET"}:
                     return get
                 if {dotted(l), dotted(r)} == {"path", "self.endpoint_name"}:
                     return path
@@ -218,16 +223,19 @@ def table(ctx: Ctx, rule="R-C20-TABLE") -> None:
 
     for get in (True, False):
         for path in (True, False):
-            r = flow.reach_under(g, env(get, path), flow.NORMAL_KINDS)
-            got = sorted({kind(s) for s in stores if s.id in r})
+            e_ = env(get, path)
+            r = flow.reach_under(g, e_, flow.NORMAL_KINDS)
+            got = sorted({kind(s, e_) for s in stores if s.id in r})
             want = ["status"] if (get and path) else ["404"]
             ctx.check(got == want, rule, f, f"handle_request[method==GET: {get}, path==endpoint: {path}]", f"-> {want[0]}",
                       f"handle_request with method {'==' if get else '!='} GET and path {'==' if path else '!='} endpoint answers {got} instead of {want}",
                       instance=f"table[{get},{path}]")
     rets = [n for n in g.nodes if n.kind == "return"]
-    ok = len(rets) == 1 and isinstance(rets[0].ast.value, ast.JoinedStr) and unparse(rets[0].ast.value).count("{content}") >= 2 and "HTTP/1.1 {content}" in unparse(rets[0].ast.value) \
-        and "Connection: close" in unparse(rets[0].ast.value)
-    ctx.check(ok, rule, f, "status line and body are the content", "HTTP/1.1 <content> ... Connection: close ... <content>", "the response is not built from the content chosen by the table", instance="response shape")
+    tpl = C.text_template(f, rets[0].ast.value) if len(rets) == 1 else None
+    ok = tpl is not None and tpl.count("{content}") >= 2 and tpl.startswith("HTTP/1.1 {content}\r\n") and tpl.endswith("Connection: close\r\n\r\n{content}") \
+        and "Content-Length: {len(content)}\r\n" in tpl
+    ctx.check(ok, rule, f, "status line and body are the content", "HTTP/1.1 <content> ... Connection: close ... <content>",
+              f"the response is not built from the content chosen by the table (template {tpl!r})", instance="response shape")
     hs = ctx.prog.cls("repid.health_check_server.HealthCheckStatus")
     vals = {k: v.value for k, v in hs.attrs.items() if isinstance(v, ast.Constant)}
     ctx.check(vals == {"OK": 200, "UNHEALTHY": 503}, rule, hs.qualname, "HealthCheckStatus values", "OK=200, UNHEALTHY=503", f"HealthCheckStatus is {vals}", instance="status codes")
